@@ -6,6 +6,8 @@ import Sourcer.Wire
     (core (bytes 0|1) (ign k|-1) (fuel n) (rx R…) (rules E…) (entry E) (cases (p c c c …) …))
         → for every case "<gen> <peg>" separated by " ; "
     (flagsof E)                           → as/cps bits the table assigns to E
+    (transform (cbs ((cls action) …) …) V) → result and callback log
+    (visit T) / (traverse T)              → yielded object ids / events parent:field:child:finished
     (peq A B)                             → Python `A == B`, hashable(A), model hashes equal
     (replace O (i V) …)                   → `O._replace(field_i=V, …)`
     (machine (start k) (fuel n) (bodies (k FPROG) …))  → event trace of the `_run` model
@@ -90,6 +92,27 @@ def handle (st : St) (line : String) : St × String :=
     match handleCore st xs with
     | some out => (st, out)
     | none => (st, "error bad-core-request")
+  | some (.list [.atom "transform", .list (.atom "cbs" :: cbs), v]) =>
+    let r := do
+      let cbs ← cbs.mapM fun cb => match cb with
+        | .list rules => rules.mapM fun r => match r with
+          | .list [c, a] => do pure ((← c.nat?), (← decodeAction a))
+          | _ => none
+        | _ => none
+      let v ← decodeTV v
+      let res := Tr.transform (cbs.map mkCb) v
+      pure (printTV res.1 ++ " | " ++ " ".intercalate (res.2.map fun e => s!"{e.1}={printTV e.2}"))
+    match r with
+    | some out => (st, out)
+    | none => (st, "error bad-transform-request")
+  | some (.list [.atom "visit", t]) =>
+    match decodeT t with
+    | some t => (st, " ".intercalate ((Walk.visit t).map toString))
+    | none => (st, "error bad-tree")
+  | some (.list [.atom "traverse", t]) =>
+    match decodeT t with
+    | some t => (st, " ".intercalate ((Walk.traverse t).map printEvent))
+    | none => (st, "error bad-tree")
   | some (.list [.atom "peq", a, b]) =>
     match decodePV a, decodePV b with
     | some a, some b =>
